@@ -216,38 +216,44 @@ def Op.isAv : Op → Bool
   | .av _ _ => true
   | _ => false
 
-/-- what a thread's local state promises about the call it is executing -/
+/-- what a thread's local state promises about the call it is executing (`inv` is the local flag
+`invalid_key`: together with the pairs still to be looked at it accounts for every infinity key of
+the list) -/
 def ThreadOk (U : List Pair) (t : Thread) : Prop :=
   match t.st with
-  | .av sig todo pending got =>
+  | .av sig todo pending got inv =>
     (∀ p ∈ todo, p ∈ U) ∧ (∀ e, pending = some e → ∃ p ∈ U, p.key = e.1 ∧ e.2 = p.pairing) ∧
     ∃ ps, t.op = .av ps sig ∧ sig.isValid = true ∧ got ++ todo.map Pair.pairing = ps.map Pair.pairing
+      ∧ (inv || todo.any Pair.isInf) = ps.any Pair.isInf
   | .upd todo => Truthful U todo ∧ t.op.isAv = false
   | .evict _ => t.op.isAv = false
   | .len => t.op.isAv = false
-  | .done o => ∀ ps sig, t.op = .av ps sig → o = .verdict (aggregateVerifyGt sig (ps.map Pair.pairing))
+  | .done o => ∀ ps sig, t.op = .av ps sig →
+      o = .verdict (aggregateVerifyGt sig (ps.map Pair.pairing) && !(ps.any Pair.isInf))
 
 theorem aggregateVerifyGt_invalid {sig : Sig} (h : sig.isValid = false) (gts : List GT) :
     aggregateVerifyGt sig gts = false := by
   simp [aggregateVerifyGt, h]
 
 theorem avNext_ok {U : List Pair} {t : Thread} {sig : Sig} {todo : List Pair}
-    {pending : Option (Bytes × GT)} {got : List GT}
+    {pending : Option (Bytes × GT)} {got : List GT} {inv : Bool}
     (h1 : ∀ p ∈ todo, p ∈ U)
     (h2 : ∀ e, pending = some e → ∃ p ∈ U, p.key = e.1 ∧ e.2 = p.pairing)
-    (h3 : ∃ ps, t.op = .av ps sig ∧ sig.isValid = true ∧ got ++ todo.map Pair.pairing = ps.map Pair.pairing) :
-    ThreadOk U { t with st := avNext sig todo pending got } := by
+    (h3 : ∃ ps, t.op = .av ps sig ∧ sig.isValid = true ∧ got ++ todo.map Pair.pairing = ps.map Pair.pairing
+      ∧ (inv || todo.any Pair.isInf) = ps.any Pair.isInf) :
+    ThreadOk U { t with st := avNext sig todo pending got inv } := by
   unfold avNext
   split
   · -- finished
-    obtain ⟨ps, hop, _, hg⟩ := h3
+    obtain ⟨ps, hop, _, hg, hi⟩ := h3
     simp only [ThreadOk]
     intro ps' sig' hop'
     rw [hop] at hop'
     injection hop' with e1 e2
     subst e1; subst e2
     simp only [List.map_nil, List.append_nil] at hg
-    rw [hg]
+    simp only [List.any_nil, Bool.or_false] at hi
+    rw [hg, hi]
   · simp only [ThreadOk]
     exact ⟨h1, h2, h3⟩
 
@@ -261,11 +267,11 @@ theorem start_ok {U : List Pair} {op : Op} (h : OpOk U op) : ThreadOk U (Thread.
       intro ps' sig' hop
       injection hop with e1 e2
       subst e1; subst e2
-      rw [aggregateVerifyGt_invalid hv]
+      rw [aggregateVerifyGt_invalid hv, Bool.false_and]
     | true =>
       simp only [Bool.not_true, Bool.false_eq_true, if_false]
       exact avNext_ok (t := { op := .av ps sig, st := .len }) h (by intro e he; cases he)
-        ⟨ps, rfl, hv, by simp⟩
+        ⟨ps, rfl, hv, by simp, by simp⟩
   | upd es =>
     cases es with
     | nil => simp [Thread.start, ThreadOk]
@@ -292,30 +298,32 @@ theorem step_ok {U : List Pair} (hcf : CollisionFree U) {c : Cache} {t : Thread}
   unfold step
   split
   · -- put
-    rename_i sig todo k v got hst
+    rename_i sig todo k v got inv hst
     simp only [ThreadOk, hst] at ht
     obtain ⟨h1, h2, h3⟩ := ht
     exact ⟨put_sound hs (h2 _ rfl), avNext_ok h1 (by intro e he; cases he) h3⟩
   · -- lookup
-    rename_i sig p rest got hst
+    rename_i sig p rest got inv hst
     simp only [ThreadOk, hst] at ht
-    obtain ⟨h1, _, ps, hop, hv, hg⟩ := ht
+    obtain ⟨h1, _, ps, hop, hv, hg, hi⟩ := ht
     have hp : p ∈ U := h1 p (List.mem_cons_self ..)
     have hrest : ∀ q ∈ rest, q ∈ U := fun q hq => h1 q (List.mem_cons_of_mem _ hq)
+    have hi' : ((inv || p.isInf) || rest.any Pair.isInf) = ps.any Pair.isInf := by
+      rw [← hi, List.any_cons, Bool.or_assoc]
     split
     · rename_i v hget
       obtain ⟨q, hq, hk, hvq⟩ := get_sound hs hget
       have : v = p.pairing := by rw [hvq]; exact hcf q hq p hp hk
       subst this
-      refine ⟨hs, avNext_ok hrest (by intro e he; cases he) ⟨ps, hop, hv, ?_⟩⟩
+      refine ⟨hs, avNext_ok hrest (by intro e he; cases he) ⟨ps, hop, hv, ?_, hi'⟩⟩
       rw [← hg]; simp
-    · refine ⟨hs, avNext_ok hrest ?_ ⟨ps, hop, hv, ?_⟩⟩
+    · refine ⟨hs, avNext_ok hrest ?_ ⟨ps, hop, hv, ?_, hi'⟩⟩
       · intro e he
         injection he with he
         subst he
         exact ⟨p, hp, rfl, rfl⟩
       · rw [← hg]; simp
-  · rename_i sig got hst
+  · rename_i sig got inv hst
     simp only [ThreadOk, hst] at ht
     obtain ⟨h1, h2, h3⟩ := ht
     exact ⟨hs, avNext_ok h1 h2 h3⟩
@@ -367,6 +375,98 @@ theorem step_keysNodup {c : Cache} (t : Thread) (h : KeysNodup c) : KeysNodup (s
   · split <;> rfl
   · exact evict_cap _ _
 
+/-! ## the `invalid_key` flag alone: no hypothesis on the cache -/
+
+/-- what a thread's local state promises about the infinity keys of its call, whatever the cache
+holds (no soundness, no collision-freeness, no capacity bound): the flag together with the pairs
+still to be looked at accounts for every infinity key of the list, and a verification that has
+returned on a list with an infinity key has returned `false` -/
+def FlagOk (t : Thread) : Prop :=
+  match t.st with
+  | .av sig todo _ _ inv => ∃ ps, t.op = .av ps sig ∧ (inv || todo.any Pair.isInf) = ps.any Pair.isInf
+  | .upd _ => t.op.isAv = false
+  | .evict _ => t.op.isAv = false
+  | .len => t.op.isAv = false
+  | .done o => ∀ ps sig, t.op = .av ps sig → ps.any Pair.isInf = true → o = .verdict false
+
+theorem avNext_flagOk {t : Thread} {sig : Sig} {todo : List Pair}
+    {pending : Option (Bytes × GT)} {got : List GT} {inv : Bool}
+    (h : ∃ ps, t.op = .av ps sig ∧ (inv || todo.any Pair.isInf) = ps.any Pair.isInf) :
+    FlagOk { t with st := avNext sig todo pending got inv } := by
+  unfold avNext
+  split
+  · obtain ⟨ps, hop, hi⟩ := h
+    simp only [FlagOk]
+    intro ps' sig' hop' hinf
+    rw [hop] at hop'
+    injection hop' with e1 e2
+    subst e1; subst e2
+    simp only [List.any_nil, Bool.or_false] at hi
+    rw [hi, hinf, Bool.not_true, Bool.and_false]
+  · simp only [FlagOk]
+    exact h
+
+theorem start_flagOk (op : Op) : FlagOk (Thread.start op) := by
+  cases op with
+  | av ps sig =>
+    simp only [Thread.start]
+    cases hv : sig.isValid with
+    | false =>
+      simp only [Bool.not_false, if_true, FlagOk]
+      intro ps' sig' _ _
+      trivial
+    | true =>
+      simp only [Bool.not_true, Bool.false_eq_true, if_false]
+      exact avNext_flagOk (t := { op := .av ps sig, st := .len }) ⟨ps, rfl, by simp⟩
+  | upd es =>
+    cases es with
+    | nil => simp [Thread.start, FlagOk]
+    | cons e rest => exact (rfl : (Op.upd (e :: rest)).isAv = false)
+  | evict ps => simp [Thread.start, FlagOk, Op.isAv]
+  | len => simp [Thread.start, FlagOk, Op.isAv]
+
+theorem notAv_flagDone {t : Thread} (h : t.op.isAv = false) (o : Out) :
+    FlagOk { t with st := .done o } := by
+  simp only [FlagOk]
+  intro ps sig hop
+  rw [hop] at h
+  cases h
+
+/-- one atomic step preserves the promise about the flag, on ANY cache -/
+theorem step_flagOk (c : Cache) {t : Thread} (ht : FlagOk t) : FlagOk (step c t).2 := by
+  unfold step
+  split
+  · rename_i sig todo k v got inv hst
+    simp only [FlagOk, hst] at ht
+    exact avNext_flagOk ht
+  · rename_i sig p rest got inv hst
+    simp only [FlagOk, hst] at ht
+    obtain ⟨ps, hop, hi⟩ := ht
+    have hi' : ((inv || p.isInf) || rest.any Pair.isInf) = ps.any Pair.isInf := by
+      rw [← hi, List.any_cons, Bool.or_assoc]
+    split
+    · exact avNext_flagOk ⟨ps, hop, hi'⟩
+    · exact avNext_flagOk ⟨ps, hop, hi'⟩
+  · rename_i sig got inv hst
+    simp only [FlagOk, hst] at ht
+    exact avNext_flagOk ht
+  · rename_i hst
+    simp only [FlagOk, hst] at ht
+    exact notAv_flagDone ht _
+  · rename_i aug gt rest hst
+    simp only [FlagOk, hst] at ht
+    split
+    · exact notAv_flagDone ht _
+    · simp only [FlagOk]
+      exact ht
+  · rename_i ps hst
+    simp only [FlagOk, hst] at ht
+    exact notAv_flagDone ht _
+  · rename_i hst
+    simp only [FlagOk, hst] at ht
+    exact notAv_flagDone ht _
+  · exact ht
+
 /-! ## worlds and schedules -/
 
 /-- an invariant of the cache that every atomic step of any thread preserves holds after every schedule -/
@@ -405,6 +505,26 @@ theorem runSchedule_ok {U : List Pair} (hcf : CollisionFree U) (w : World) (sche
   induction sched generalizing w with
   | nil => exact h
   | cons i rest ih => exact ih _ (stepThread_ok hcf i h)
+
+theorem stepThread_flagOk {w : World} (i : Nat) (h : ∀ t ∈ w.threads, FlagOk t) :
+    ∀ t ∈ (w.stepThread i).threads, FlagOk t := by
+  unfold World.stepThread
+  split
+  · exact h
+  · rename_i t hget
+    have ht : FlagOk t := h t (List.mem_of_getElem? hget)
+    intro t' ht'
+    rcases List.mem_or_eq_of_mem_set ht' with h' | rfl
+    · exact h t' h'
+    · exact step_flagOk _ ht
+
+/-- the promise about the flag survives every schedule, on any cache -/
+theorem runSchedule_flagOk (w : World) (sched : List Nat) (h : ∀ t ∈ w.threads, FlagOk t) :
+    ∀ t ∈ (runSchedule w sched).threads, FlagOk t := by
+  unfold runSchedule
+  induction sched generalizing w with
+  | nil => exact h
+  | cons i rest ih => exact ih _ (stepThread_flagOk i h)
 
 theorem runSchedule_append (w : World) (s1 s2 : List Nat) :
     runSchedule w (s1 ++ s2) = runSchedule (runSchedule w s1) s2 := by
@@ -447,8 +567,8 @@ def stepsAt (w : World) (i : Nat) : Nat :=
   | none => 0
 
 theorem stepsLeft_avNext (sig : Sig) (todo : List Pair) (pending : Option (Bytes × GT)) (got : List GT)
-    (t : Thread) :
-    stepsLeft { t with st := avNext sig todo pending got }
+    (inv : Bool) (t : Thread) :
+    stepsLeft { t with st := avNext sig todo pending got inv }
       ≤ 2 * todo.length + (if pending.isSome then 1 else 0) + 1 := by
   unfold avNext
   split <;> simp [stepsLeft]
@@ -456,21 +576,21 @@ theorem stepsLeft_avNext (sig : Sig) (todo : List Pair) (pending : Option (Bytes
 theorem stepsLeft_step (c : Cache) (t : Thread) : stepsLeft (step c t).2 ≤ stepsLeft t - 1 := by
   unfold step
   split
-  · rename_i sig todo k v got hst
-    have := stepsLeft_avNext sig todo none got t
+  · rename_i sig todo k v got inv hst
+    have := stepsLeft_avNext sig todo none got inv t
     simp [stepsLeft, hst] at this ⊢
     unfold avNext at this ⊢
     split <;> simp_all [stepsLeft] <;> omega
-  · rename_i sig p rest got hst
+  · rename_i sig p rest got inv hst
     split
     · rename_i v _
-      have := stepsLeft_avNext sig rest none (got ++ [v]) t
+      have := stepsLeft_avNext sig rest none (got ++ [v]) (inv || p.isInf) t
       simp [stepsLeft, hst] at this ⊢
       omega
-    · have := stepsLeft_avNext sig rest (some (p.key, p.pairing)) (got ++ [p.pairing]) t
+    · have := stepsLeft_avNext sig rest (some (p.key, p.pairing)) (got ++ [p.pairing]) (inv || p.isInf) t
       simp [stepsLeft, hst] at this ⊢
       omega
-  · rename_i sig got hst
+  · rename_i sig got inv hst
     simp [stepsLeft, hst, avNext]
   · simp [stepsLeft]
   · rename_i aug gt rest hst
